@@ -9,6 +9,9 @@
      everything else a comment
    (mock_generator.go:167-269).  Example lists are stored under "<Outer>.<Inner>.<f>" for the
    messages of the service's file (50-86) and looked up under "<short message name>.<f>" (172-176).
+   Since 1e0a1c9 the generator carries the set of message types currently being filled (the path
+   from the response type down): a singular message field whose type is on the path gets a comment
+   and no assignment; a message-valued map whose value type is on the path is made and left empty.
    The model gives (1) the build obligations of those assignments, on top of Emit.v's, and (2) for
    each RPC the SET of values each response leaf can take (the selectors pick at random). *)
 From Sebuf Require Export Schema Json Num Emit.
@@ -196,16 +199,20 @@ Definition timestamp_walk (p : str) : walk :=
 Definition w_mute (w : walk) : walk :=
   {| w_checks := []; w_leaves := w_leaves w; w_present := w_present w; w_tags := w_tags w |}.
 
-(* one field; [sub n p'] walks message type n at path p' *)
-Definition field_walk (sub : str -> str -> option walk) (fl : file) (ex : extab) (ft : ftab)
+(* one field; [sub n p'] walks message type n at path p'; [onp n]: message type n is being filled *)
+Definition field_walk (onp : str -> bool) (sub : str -> str -> option walk) (fl : file) (ex : extab) (ft : ftab)
            (m : message) (p : str) (f : field) : option walk :=
   let here := join_path p (f_name f) in
   let own := {| w_checks := []; w_leaves := []; w_present := []; w_tags := shape_tags f ++ example_tags fl ex ft m f |} in
+  (* nothing is printed that mentions the field: no shape obligation, no shape tag *)
+  let skipped := {| w_checks := []; w_leaves := []; w_present := []; w_tags := example_tags fl ex ft m f |} in
   match f_card f with
   | MapOf kk =>
       let keyed := here ++ s "[" ++ sample_key kk ++ s "]" in
       match f_kind f with
       | KMessage n =>
+          if onp n then Some skipped   (* make(map[K]*V) and return: the map stays empty *)
+          else
           match sub n keyed with
           | Some w => Some (w_app own (w_app {| w_checks := []; w_leaves := []; w_present := [keyed]; w_tags := [] |} w))
           | None => None
@@ -221,6 +228,8 @@ Definition field_walk (sub : str -> str -> option walk) (fl : file) (ex : extab)
           match c with
           | Repeated => Some own
           | _ =>
+              if onp n then Some skipped   (* "// F is left unset: its type is the type being filled" *)
+              else
               match sub n here with
               | Some w => Some (w_app own (w_app {| w_checks := [assign_check (go_field_type f) (GPtrMsg n)];
                                                     w_leaves := []; w_present := [here]; w_tags := [] |}
@@ -249,16 +258,20 @@ Fixpoint walk_fields (step : field -> option walk) (fs : list field) : option wa
               end
   end.
 
-(* generateMockFieldAssignments; fuel bounds the depth (cyclic response types never finish: C16) *)
-Fixpoint mock_walk (fuel : nat) (sc : schema) (fl : file) (ex : extab) (ft : ftab) (m : message) (p : str) : option walk :=
+(* generateMockFieldAssignments with its onPath set; [path] = full names of the message types being
+   filled above this one.  Fuel bounds the depth; proofs/MockFacts.v mock_walk_terminates shows that
+   [walk_fuel] is enough for every closed schema, recursive or not. *)
+Fixpoint mock_walk (fuel : nat) (sc : schema) (fl : file) (ex : extab) (ft : ftab) (path : list str) (m : message) (p : str) : option walk :=
   match fuel with
   | O => None
   | S fu =>
+      let path' := m_name m :: path in
       walk_fields
-        (field_walk (fun n p' =>
+        (field_walk (fun n => mem_str n path')
+                    (fun n p' =>
                        if str_eqb n (s "google.protobuf.Timestamp") then Some (timestamp_walk p')
                        else match find_message (all_messages sc) n with
-                            | Some t => mock_walk fu sc fl ex ft t p'
+                            | Some t => mock_walk fu sc fl ex ft path' t p'
                             | None => None
                             end) fl ex ft m p)
         (m_fields m)
@@ -269,7 +282,7 @@ Definition walk_fuel (sc : schema) : nat := S (List.length (all_messages sc)).
 Definition output_msg (sc : schema) (md : method) : option message := find_message (all_messages sc) (md_out md).
 Definition rpc_walk (sc : schema) (ex : extab) (ft : ftab) (fl : file) (md : method) : option walk :=
   match output_msg sc md with
-  | Some m => mock_walk (walk_fuel sc) sc fl ex ft m []
+  | Some m => mock_walk (walk_fuel sc) sc fl ex ft [] m []
   | None => None
   end.
 
@@ -317,7 +330,7 @@ Definition predict_C20 (c : mcase) : json :=
   if negb (one_package sc) then JObj [(s "unmodelled", JStr (s "generated files in several Go packages"))]
   else if negb (accepted sc) then JObj [(s "unmodelled", JStr (s "annotation placement the generation-time validators refuse"))]
   else match rpc_walks sc ex ft with
-       | None => JObj [(s "unmodelled", JStr (s "response type outside the model (cyclic, or a well-known type other than Timestamp)"))]
+       | None => JObj [(s "unmodelled", JStr (s "response type outside the model (a well-known type other than Timestamp)"))]
        | Some ws =>
            let b := mock_builds sc ws in
            JObj [(s "tags", jstrs (defects_C20 sc ws));
